@@ -8,6 +8,8 @@ from props.base import BasePlugin, shrink_value
 from common import to_coq
 
 import mongomock
+import warnings
+warnings.simplefilter("ignore")
 
 
 def res_term(o, ok):
@@ -29,7 +31,7 @@ class Plugin(BasePlugin):
     explain_fn = 'c04_explain'
     quick_n = 3000
     thorough_n = 60000
-    FINDING_BITS = 0
+    FINDING_BITS = 1 | 2 | 4 | 8 | 16 | 32 | 64 | 128
     UNDECIDED_BITS = 0
     rule = ('one document (numbers, strings, booleans, nulls, arrays of scalars, arrays of sub-documents, '
             'a sub-document, a datetime; each field missing in 12% of the documents) x one type-directed '
@@ -45,6 +47,14 @@ class Plugin(BasePlugin):
         doc = genexpr.gen_doc(rng)
         depth = rng.choice([1, 2, 2, 3])
         return {'doc': doc, 'expr': genexpr.gen(rng, depth, 'any')}
+
+    def gen_tiny(self, rng):
+        return {'doc': genexpr.gen_doc(rng), 'expr': genexpr.gen(rng, 1, 'any')}
+
+    def signature(self, case, o):
+        e = case['expr']
+        top = list(e)[0] if isinstance(e, dict) and e else type(e).__name__
+        return '%s -> add:%s match:%s' % (top, o['add'].get('err', 'ok'), o['match'].get('err', 'ok'))
 
     def run_impl(self, case):
         coll = mongomock.MongoClient().db.c
